@@ -4,6 +4,11 @@ WHATWG URL parser sees in the character-reference-decoded value is the scheme th
 namespace Cppcms.C04.Uri
 open Cppcms
 
+theorem ampAmp_eq : ampAmp = [38, 97, 109, 112, 59] := by decide
+theorem ampApos_eq : ampApos = [38, 97, 112, 111, 115, 59] := by decide
+theorem pct_eq : ∀ c : UInt8, c.toNat = Gen.uriPct → c = 37 := by
+  apply forall_uint8; decide +kernel
+
 /-- a byte the parser can consume on its own: RFC 3986 unreserved, `%`, the gen-delims `: @ / ? #` it admits, and the
 sub-delims other than `&` (`! $ ( ) * + , ; = '`) -/
 def uriPlain (c : UInt8) : Bool :=
@@ -88,12 +93,13 @@ theorem cons_pctEncoded : Cons pctEncoded := by
   intro s
   unfold pctEncoded
   split
-  · rename_i a b s'
-    split
-    · rename_i h
-      simp only [Bool.and_eq_true] at h
+  · split
+    · rename_i c0 a b s' h
+      simp only [Bool.and_eq_true, decide_eq_true_eq] at h
+      have hc := pct_eq c0 h.1.1
+      subst hc
       refine ⟨[37, a, b], by simp, ?_⟩
-      exact Safe.byte 37 _ (by decide) (Safe.byte a _ (hex_plain a h.1) (Safe.single (hex_plain b h.2)))
+      exact Safe.byte 37 _ (by decide) (Safe.byte a _ (hex_plain a h.1.2) (Safe.single (hex_plain b h.2)))
     · exact ⟨[], by simp, Safe.nil⟩
   · exact ⟨[], by simp, Safe.nil⟩
 
@@ -191,11 +197,7 @@ theorem cons_decOctet : Cons decOctet := by
   | cons c s =>
     simp only
     split
-    · split
-      · rfl
-      · split
-        · rfl
-        · split <;> rfl
+    · split <;> rfl
     · rfl
 
 theorem cons_andThen {a b : P} (ha : Cons a) (hb : Cons b) : Cons (andThen a b) := by
@@ -400,13 +402,13 @@ theorem safe_bytes {v : Bytes} (h : Safe v) : ∀ b ∈ v, byteOk b = true := by
   | amp s _ ih =>
     intro b hb
     rcases List.mem_append.mp hb with h | h
-    · revert h; simp only [ampAmp, List.mem_cons, List.mem_nil_iff, or_false]
+    · revert h; simp only [ampAmp_eq, List.mem_cons, List.mem_nil_iff, or_false]
       intro h; rcases h with rfl | rfl | rfl | rfl | rfl <;> decide
     · exact ih b h
   | apos s _ ih =>
     intro b hb
     rcases List.mem_append.mp hb with h | h
-    · revert h; simp only [ampApos, List.mem_cons, List.mem_nil_iff, or_false]
+    · revert h; simp only [ampApos_eq, List.mem_cons, List.mem_nil_iff, or_false]
       intro h; rcases h with rfl | rfl | rfl | rfl | rfl | rfl <;> decide
     · exact ih b h
 
@@ -421,8 +423,8 @@ theorem safe_refs {v : Bytes} (h : Safe v) : refsOk v = true := by
   | byte c s hc _ ih =>
     have := (uriPlain_facts c hc).2.2.2.2.2.1
     simp [refsOk, this, ih]
-  | amp s _ ih => simp [ampAmp, refsOk, ih]
-  | apos s _ ih => simp [ampApos, refsOk, ih]
+  | amp s _ ih => simp [ampAmp_eq, refsOk, ih]
+  | apos s _ ih => simp [ampApos_eq, refsOk, ih]
 
 /-! ### the scheme a browser sees -/
 
@@ -471,10 +473,10 @@ theorem decodeRefs_cons_ne (c : UInt8) (s : Bytes) (h : c ≠ 38) : decodeRefs (
   · rename_i heq; simp at heq
 
 theorem decodeRefs_amp (s : Bytes) : decodeRefs (ampAmp ++ s) = 38 :: decodeRefs s := by
-  simp [ampAmp, decodeRefs]
+  simp [ampAmp_eq, decodeRefs]
 
 theorem decodeRefs_apos (s : Bytes) : decodeRefs (ampApos ++ s) = 39 :: decodeRefs s := by
-  simp [ampApos, decodeRefs]
+  simp [ampApos_eq, decodeRefs]
 
 theorem schemeOf_cons (c : UInt8) (rest : Bytes) :
     schemeOf (c :: rest) = if isAlpha c = true ∧ (rest.dropWhile schemeChar).head? = some 58 then
@@ -505,12 +507,12 @@ theorem decode_scheme_prefix {s : Bytes} (h : Safe s) :
   | amp s _ _ =>
     rw [decodeRefs_amp]
     have e : schemeChar 38 = false := by decide
-    simp [ampAmp, List.takeWhile_cons, List.dropWhile_cons, e]
+    simp [ampAmp_eq, List.takeWhile_cons, List.dropWhile_cons, e]
   | apos s _ _ =>
     rw [decodeRefs_apos]
     have e : schemeChar 38 = false := by decide
     have e' : schemeChar 39 = false := by decide
-    simp [ampApos, List.takeWhile_cons, List.dropWhile_cons, e, e']
+    simp [ampApos_eq, List.takeWhile_cons, List.dropWhile_cons, e, e']
 
 theorem safe_decode {s : Bytes} (h : Safe s) : ∀ c ∈ decodeRefs s, 33 ≤ c := by
   induction h with
@@ -559,10 +561,10 @@ theorem browserScheme_decode {v : Bytes} (h : Safe v) : browserScheme (decodeRef
   | amp s hs =>
     rw [decodeRefs_amp, schemeOf_cons]
     have : isAlpha 38 = false := by decide
-    simp [this, ampAmp, schemeOf_cons]
+    simp [this, ampAmp_eq, schemeOf_cons]
   | apos s hs =>
     rw [decodeRefs_apos, schemeOf_cons]
     have e1 : isAlpha 39 = false := by decide
     have e2 : isAlpha 38 = false := by decide
-    simp [e1, e2, ampApos, schemeOf_cons]
+    simp [e1, e2, ampApos_eq, schemeOf_cons]
 end Cppcms.C04.Uri
